@@ -68,9 +68,14 @@ type referrer struct {
 	Owner   int                `json:"owner"`
 	First   bool               `json:"first,omitempty"` // its first operation is the first operation of its owner
 	Desc    ocispec.Descriptor `json:"-"`
-	Bytes   []byte             `json:"-"`
-	Want    string             `json:"-"` // normalised descriptor a listing must show
-	Digest  string             `json:"digest"`
+	// PushDesc is the descriptor handed to Push: Desc, or Desc enriched with an
+	// artifact type / annotations of the caller's own (as an OCI-layout index
+	// entry carries them); the index entry must still show the manifest's.
+	PushDesc ocispec.Descriptor `json:"-"`
+	Enriched string             `json:"enriched,omitempty"`
+	Bytes    []byte             `json:"-"`
+	Want     string             `json:"-"` // normalised descriptor a listing must show
+	Digest   string             `json:"digest"`
 }
 
 type subject struct {
@@ -81,6 +86,10 @@ type subject struct {
 	Tag    string
 	Dirty  string // pre-existing index: "", "clean", "dup", "empty", "both"
 	Drain  bool   // every referrer of this subject is deleted again: the index ends up removed
+	// Exact > 0: the pre-existing index carries exactly Exact surplus duplicate
+	// entries (no empty ones) and exactly Exact new referrers are pushed to the
+	// subject, each as the first operation of its worker (or one sequentially).
+	Exact int
 }
 
 type fault struct {
@@ -676,6 +685,29 @@ func runCase(phase string, i int) worker.Result {
 		nextID++
 		r.Subject = subj
 		r.Via = rng.IntN(4)
+		r.PushDesc = r.Desc
+		if rng.IntN(3) == 0 {
+			switch v := rng.IntN(5); v {
+			case 0:
+				r.Enriched = "ref.name"
+				r.PushDesc.Annotations = map[string]string{"org.opencontainers.image.ref.name": "v" + strconv.Itoa(r.ID)}
+			case 1:
+				r.Enriched = "other-artifactType"
+				r.PushDesc.ArtifactType = "application/vnd.verif.callers.own"
+			case 2:
+				r.Enriched = "both"
+				r.PushDesc.ArtifactType = "application/vnd.verif.callers.own"
+				r.PushDesc.Annotations = map[string]string{"org.opencontainers.image.ref.name": "v" + strconv.Itoa(r.ID), "verif.id": "callers"}
+			case 3:
+				r.Enriched = "empty-annotations"
+				r.PushDesc.Annotations = map[string]string{}
+			case 4:
+				r.Enriched = "same-as-manifest"
+				var e ocispec.Descriptor
+				json.Unmarshal(descJSON(r), &e)
+				r.PushDesc.ArtifactType, r.PushDesc.Annotations = e.ArtifactType, e.Annotations
+			}
+		}
 		h.refs = append(h.refs, r)
 		h.byDigest[r.Desc.Digest] = r
 		return r
@@ -698,6 +730,15 @@ func runCase(phase string, i int) worker.Result {
 			}
 			sub.Drain = false
 		}
+		if !pingRace && !apiFirst && sub.N >= 1 && rng.IntN(2) == 0 {
+			sub.Exact = 1 + rng.IntN(3)
+			sub.Dirty, sub.Drain = "dup", false
+			nPre = 1 + rng.IntN(2)
+			if sub.Exact >= 2 {
+				// the Exact pushes should meet in one batch: a long index GET keeps the window open
+				h.delayMax["iGET"], h.delayMax["*"] = 6*time.Millisecond, 0
+			}
+		}
 		if sub.Dirty == "" {
 			continue
 		}
@@ -713,15 +754,24 @@ func runCase(phase string, i int) worker.Result {
 			if pingRace && sub.N == 0 && k < 2 {
 				r.Script, r.Owner, r.First = []string{"delete"}, k, true
 			}
+			if sub.Exact > 0 {
+				r.Script = []string{}
+			}
 			h.reg.PutManifest(repoName, r.Desc.MediaType, r.Bytes)
 			var e ocispec.Descriptor
 			json.Unmarshal(descJSON(r), &e)
 			entries = append(entries, e)
-			if (sub.Dirty == "dup" || sub.Dirty == "both") && rng.IntN(2) == 0 {
+			if sub.Exact == 0 && (sub.Dirty == "dup" || sub.Dirty == "both") && rng.IntN(2) == 0 {
 				entries = append(entries, e)
 			}
 		}
-		if sub.Dirty == "dup" || sub.Dirty == "both" {
+		if sub.Exact > 0 {
+			for k := 0; k < sub.Exact; k++ {
+				e := entries[rng.IntN(nPre)]
+				at := rng.IntN(len(entries) + 1)
+				entries = append(entries[:at:at], append([]ocispec.Descriptor{e}, entries[at:]...)...)
+			}
+		} else if sub.Dirty == "dup" || sub.Dirty == "both" {
 			if len(entries) > 0 {
 				entries = append(entries, entries[0])
 			}
@@ -740,9 +790,29 @@ func runCase(phase string, i int) worker.Result {
 		h.idxDigest[d] = sub.Tag
 	}
 	scripts := [][]string{{"push"}, {"push"}, {"push", "delete"}, {"push", "delete"}, {"push", "delete", "push"}}
+	var open []int // subjects that take random operations
+	var seqRefs []*referrer
+	for _, sub := range h.subjects {
+		if sub.Exact == 0 {
+			open = append(open, sub.N)
+			continue
+		}
+		if sub.Exact == 1 && mode == "plain" && rng.IntN(2) == 0 {
+			// the single new referrer is pushed sequentially before the concurrent phase
+			r := newRef(sub.N)
+			r.Owner, r.Script = -1, []string{"push"}
+			seqRefs = append(seqRefs, r)
+			continue
+		}
+		perm := rng.Perm(nWorkers)
+		for k := 0; k < sub.Exact; k++ {
+			r := newRef(sub.N)
+			r.Owner, r.First, r.Script = perm[k], true, []string{"push"}
+		}
+	}
 	for _, w := range h.workers {
 		for k, n := 0, 1+rng.IntN(4); k < n; k++ {
-			subj := rng.IntN(nSubj)
+			subj := open[rng.IntN(len(open))]
 			if rng.IntN(12) == 0 {
 				subj = -1
 			}
@@ -834,7 +904,7 @@ func runCase(phase string, i int) worker.Result {
 		}
 		subs := []map[string]any{}
 		for _, s := range h.subjects {
-			subs = append(subs, map[string]any{"n": s.N, "tag": s.Tag[:19], "stored": s.Stored, "pre_index": s.Dirty, "drain": s.Drain, "trace": strings.Join(h.traces[s.Tag], " ")})
+			subs = append(subs, map[string]any{"n": s.N, "tag": s.Tag[:19], "stored": s.Stored, "pre_index": s.Dirty, "drain": s.Drain, "exact_dups": s.Exact, "trace": strings.Join(h.traces[s.Tag], " ")})
 		}
 		wit := map[string]any{"mode": mode, "skip_gc": skipGC, "cap_init": capInit, "workers": nWorkers, "readers": nReaders,
 			"subjects": subs, "faults": h.faults, "referrers": h.refs, "ops": ops, "flipped_at_clock": h.flipped.Load()}
@@ -896,6 +966,14 @@ func runCase(phase string, i int) worker.Result {
 			detectAcked = true
 		}
 		h.flipAt.Store(h.totalReq.Load() + 1 + int64(rng.IntN(60)))
+	}
+	seqAcked := map[int]bool{}
+	for _, r := range seqRefs {
+		if err := pushVia(repo, r); err != nil {
+			res.Violate("unexplained-error", "sequential push on a healthy registry failed: "+err.Error(), witness(nil))
+			return res
+		}
+		seqAcked[r.ID] = true
 	}
 	detectClock := h.clock.Add(1)
 
@@ -1002,6 +1080,9 @@ func runCase(phase string, i int) worker.Result {
 		} else {
 			state[r.ID] = "absent"
 		}
+	}
+	for id := range seqAcked {
+		state[id] = "present"
 	}
 	if detectRef != nil && detectAcked {
 		state[detectRef.ID] = map[string]string{"push": "present", "delete-pre": "absent"}[detect]
@@ -1465,6 +1546,16 @@ func runCase(phase string, i int) worker.Result {
 	res.Count("referrers_judged", int64(judgedRefs))
 	res.Count("reader_calls_unjudged", readerCalls.Load())
 	res.Count("rounds_"+mode, 1)
+	for _, s := range h.subjects {
+		if s.Exact > 0 {
+			res.Count("subjects_with_k_surplus_duplicates_and_k_new_referrers", 1)
+		}
+	}
+	for _, r := range h.refs {
+		if r.Enriched != "" {
+			res.Count("referrers_pushed_with_enriched_descriptor", 1)
+		}
+	}
 	res.Count("spec_violations_seen_by_model", int64(len(h.reg.SpecViolations())))
 	if mode != "plain" {
 		if f := h.flipped.Load(); f > 0 && f < quiescentClock-1 {
@@ -1562,13 +1653,13 @@ func pushVia(repo *remote.Repository, r *referrer) error {
 	rd := bytes.NewReader(r.Bytes)
 	switch r.Via {
 	case 0:
-		return repo.Push(ctx, r.Desc, rd)
+		return repo.Push(ctx, r.PushDesc, rd)
 	case 1:
-		return repo.Manifests().Push(ctx, r.Desc, rd)
+		return repo.Manifests().Push(ctx, r.PushDesc, rd)
 	case 2:
-		return repo.PushReference(ctx, r.Desc, rd, "t"+strconv.Itoa(r.ID))
+		return repo.PushReference(ctx, r.PushDesc, rd, "t"+strconv.Itoa(r.ID))
 	default:
-		return repo.Manifests().PushReference(ctx, r.Desc, rd, "u"+strconv.Itoa(r.ID))
+		return repo.Manifests().PushReference(ctx, r.PushDesc, rd, "u"+strconv.Itoa(r.ID))
 	}
 }
 
